@@ -36,6 +36,8 @@ FORBIDDEN = re.compile(
     r"\bsorry\b|\badmit\b|^\s*axiom\s|native_decide|bv_decide|implemented_by|\bunsafe\s|maxHeartbeats\s+0\b"
 )
 
+for _v in ("OMP_NUM_THREADS", "MKL_NUM_THREADS", "OPENBLAS_NUM_THREADS"):
+    os.environ.setdefault(_v, os.environ.get("VERIF_TORCH_THREADS", "2"))
 os.environ.setdefault("SLEAP_NN_VERIF", "1")
 os.environ.setdefault("WANDB_MODE", "offline")
 os.environ.setdefault("CUDA_VISIBLE_DEVICES", "")
